@@ -312,7 +312,7 @@ func runC03(ctx *common.Ctx) error {
 	}
 	res := ctx.Res
 	rng := ctx.Rng
-	res.Rule = "random command sequences (APPEND, [UID] STORE +/-/= FLAGS[.SILENT], EXPUNGE, UID EXPUNGE, CLOSE, [UID] COPY, [UID] MOVE, re-SELECT) of 1-3 sessions over 3 mailboxes on the wire, ~30% steered into stale targets / copy onto itself / destination already holds the message, plus batch scenarios around db.ChunkLimit (1001 messages in the quick tier; 999..2001 in the thorough tier); after every command the content of every mailbox seen by a fresh session (uid, X-Marker entity, \\Deleted, lower-cased flag set, in sequence order) is compared with the reference model; non-trivial = distinct (command kind, situation)"
+	res.Rule = "random command sequences (APPEND, [UID] STORE +/-/= FLAGS[.SILENT], EXPUNGE, UID EXPUNGE, CLOSE, [UID] COPY, [UID] MOVE, NOOP, re-SELECT / EXAMINE also while news of the mailbox that is left are pending) of 1-3 sessions over 3 mailboxes on the wire, ~30% steered into stale targets / copy onto itself / destination already holds the message, plus batch scenarios around db.ChunkLimit (1001 messages in the quick tier; 999..2001 in the thorough tier); after every command the content of every mailbox seen by a fresh session (uid, X-Marker entity, \\Deleted, lower-cased flag set, in sequence order) is compared with the reference model; non-trivial = distinct (command kind, situation)"
 	start := time.Now()
 	nSmall := ctx.Budget(20, 220)
 	var lines []string
@@ -406,6 +406,13 @@ func runC03(ctx *common.Ctx) error {
 			sto(0, "1", "+", `\Deleted`), {Kind: "EXAMINE", S: 1, Box: "b1"}, sto(1, "3", "+", "x"), sto(1, "1:2", "-", `\Deleted`), {Kind: "EXPUNGE", S: 1},
 			{Kind: "UIDEXPUNGE", S: 1, Set: "1:*"}, {Kind: "MOVE", S: 1, Set: "1", Box: "b2"}, {Kind: "COPY", S: 1, Set: "2:3", Box: "b2"}, app(1, "b1", "r4"),
 			{Kind: "CLOSE", S: 1, Box: "b1"}, {Kind: "EXAMINE", S: 0, Box: "b1"}, {Kind: "CLOSE", S: 0, Box: "b2"}, {Kind: "EXPUNGE", S: 1}}},
+		{"store-flags-update-shared-by-three-sessions", 3, []op{sel(0, "b1"), sel(1, "b1"), sel(2, "b2"), app(0, "b1", "t1"), app(0, "b1", "t2"),
+			{Kind: "COPY", S: 0, Set: "1:2", Box: "b2"}, sto(2, "1", "+", `\Deleted`), sto(0, "1", "=", `\Answered`), {Kind: "NOOP", S: 2}, {Kind: "EXPUNGE", S: 1},
+			sto(0, "2", "=", `\Deleted`, "k"), {Kind: "NOOP", S: 2}, {Kind: "CLOSE", S: 1, Box: "b1"}, {Kind: "EXPUNGE", S: 2}}},
+		{"switch-mailbox-with-pending-news", 2, []op{sel(0, "b1"), sel(1, "b1"), app(0, "b1", "p1"), app(0, "b1", "p2"), app(0, "b1", "p3"), app(0, "b2", "q1"),
+			{Kind: "NOOP", S: 1}, {Kind: "MOVE", S: 0, Set: "3", Box: "b1"}, {Kind: "SELECT", S: 1, Box: "b2"}, {Kind: "NOOP", S: 1}, sto(1, "1:*", "+", `\Answered`),
+			app(0, "b2", "q2"), {Kind: "EXAMINE", S: 1, Box: "b3"}, {Kind: "SELECT", S: 1, Box: "b1"}, app(0, "b1", "p4"), {Kind: "SELECT", S: 1, Box: "b2"},
+			sto(1, "1:*", "+", `\Deleted`), {Kind: "EXPUNGE", S: 1}}},
 		{"stale-targets", 2, []op{sel(0, "b1"), sel(1, "b1"), app(0, "b1", "s1"), app(0, "b1", "s2"), {Kind: "COPY", S: 0, Set: "1", Box: "b2"},
 			sto(0, "1", "+", `\Deleted`), {Kind: "EXPUNGE", S: 0}, sto(1, "1", "+", "late"), {Kind: "MOVE", S: 1, Set: "1", Box: "b2"},
 			{Kind: "COPY", S: 1, Set: "1", Box: "b3"}, {Kind: "EXPUNGE", S: 1}}},
